@@ -38,13 +38,15 @@ time.tzset()
 import common  # noqa: E402
 import floatref  # noqa: E402
 import pyfacts  # noqa: E402
+import srcobl  # noqa: E402
 import yaql  # noqa: E402
 from dateutil import tz as dtz  # noqa: E402
 from yaql.language import factory  # noqa: E402
 
 ID = 'C20'
 LEAN_MODULES = ['Yaql.Props.C20', 'Yaql.Props.C20Cal', 'Yaql.Props.C20Gen', 'Yaql.Props.C20Float', 'Yaql.Props.FloatRound',
-                'Yaql.Props.C20Hist']
+                'Yaql.Props.C20Hist'] + \
+    srcobl.modules('C20')      # Props/SrcDateTime: the operator payloads of date_time.py as they read now
 REQUIRED_THEOREMS = [
     'Yaql.Props.C20.add_sub', 'Yaql.Props.C20.compare_instants', 'Yaql.Props.C20.utc_same_instant',
     'Yaql.Props.C20.timestamp_roundtrip', 'Yaql.Props.C20.naive_is_utc', 'Yaql.Props.C20.naive_is_utc_fields',
@@ -61,7 +63,7 @@ REQUIRED_THEOREMS = [
     'Yaql.Props.C20.tsDivTs_float', 'Yaql.Props.C20.ts_scale_float',
     'Yaql.Props.FloatRound.roundRat_nearest', 'Yaql.Props.FloatRound.roundRat_exact', 'Yaql.Props.FloatRound.roundRat_tie_even',
     'Yaql.Props.FloatRound.roundRat_mono', 'Yaql.Props.FloatRound.roundRat_congr', 'Yaql.Props.FloatRound.divBits_pos',
-]
+] + srcobl.theorems('C20')
 TRUSTED = ['CPython datetime/timedelta as the carrier of the real values (fixed-offset tzinfo only)',
            'one platform float step: the float -> microseconds rounding of datetime.fromtimestamp (a float multiplication '
            'by 1e6 inside _PyTime_ObjectToTimeval; the harness only feeds timestamps on which it agrees with exact rational '
@@ -91,7 +93,9 @@ CTX = yaql.create_context()
 
 
 def generate():
-    return pyfacts.run(['DateTimeDefs'])['DateTimeDefs']
+    info = dict(pyfacts.run(['DateTimeDefs'])['DateTimeDefs'])
+    info.update(srcobl.generate('C20'))       # re-translate the operator payloads of date_time.py
+    return info
 
 
 # ------------------------------------------------------------------ host values
